@@ -171,7 +171,9 @@ def run_cluster(req):
     n, k, model = cfg["n"], cfg["k"], cfg["model"]
     labels = [int(x) for x in req["labels"]]
     dens = req["dens"]
-    g, _ = _graph("fn", n, [[0.0] * n for _ in range(n)], labels)
+    rows = cfg.get("idx")
+    M = (max(rows) + 1) if rows else n
+    g, _ = _graph("pre" if rows else "fn", n, [[0.0] * M for _ in range(M)], labels, idx=rows)
     opf = KNNSupervisedOPF(max_k=max(k, 1)) if model == "knn" else UnsupervisedOPF(min_k=1, max_k=max(k, 1))
     opf.subgraph = g
     for i in range(n):
